@@ -36,6 +36,7 @@ type plug struct {
 	noresp bool
 	check  bool
 	maxAtt int // >0: the plugin's RetryPolicy declares MaxAttempts (the action's Retries still bound the invocations)
+	pol    *exponential.Policy // a RetryPolicy of its own (scenarios that offer the registry an invalid policy)
 	s      *sched
 }
 
@@ -58,6 +59,9 @@ func (p *plug) Response() any {
 }
 func (p *plug) IsCheck() bool { return p.check }
 func (p *plug) RetryPolicy() exponential.Policy {
+	if p.pol != nil {
+		return *p.pol
+	}
 	return exponential.Policy{InitialInterval: time.Millisecond, Multiplier: 1.1, RandomizationFactor: 0, MaxInterval: 2 * time.Millisecond, MaxAttempts: p.maxAtt}
 }
 func (p *plug) Init() error { return nil }
